@@ -11,6 +11,7 @@ The only types available are basic integer types and a pointer type.
 
 from binascii import hexlify
 from itertools import chain
+from math import isfinite
 import logging
 from .utils.collections import OrderedSet
 
@@ -862,6 +863,9 @@ class Const(LocalValue):
         assert isinstance(value, (int, float)), str(value)
 
     def __str__(self):
+        if isinstance(self.value, float) and not isfinite(self.value):
+            # inf and nan are no numeric literals: quote them
+            return f"{self.ty} {self.name} = float '{self.value}'"
         return f"{self.ty} {self.name} = {self.value}"
 
 
